@@ -836,6 +836,10 @@ def call_builtin(interp: Any, fv: BuiltinV, args: list[V], kwargs: dict[str, V],
     if name.startswith("torch.fft."):
         yield fft_op(interp, name.rsplit(".", 1)[-1], args, kwargs, st, node), st
         return
+    if name == "torch.Tensor" and len(args) == 1 and not isinstance(args[0], (IntV, TensorV)):
+        # Tensor(<sequence of numbers>) builds a float tensor from the data, like torch.tensor
+        yield tensor_op(interp, "tensor", args, kwargs, st, fr, node), st
+        return
     if name.startswith("torch."):
         yield tensor_op(interp, name[6:], args, kwargs, st, fr, node), st
         return
